@@ -19,6 +19,7 @@ type SpecCtx struct {
 	pkg       *types.Package
 	bound     map[string]Val
 	inOld     bool
+	fnName    string // enclosing Go function (for function-typed parameters)
 }
 
 type specErr string
@@ -847,6 +848,40 @@ func (c *SpecCtx) evalCall(e *ECall) Val {
 	case "isinf":
 		x := c.materialize(c.eval(e.Args[0]), types.Typ[types.Float64])
 		return Val{T: fmt.Sprintf("(fp.isInfinite %s)", x.T), Typ: boolT}
+	case "match":
+		// match(re, s): the regular expression re matches s (an arbitrary but fixed predicate)
+		re := c.eval(e.Args[0])
+		sv := c.eval(e.Args[1])
+		c.enc().trusted["library contract: regexp match = an arbitrary but fixed predicate of (pattern object, string)"] = true
+		return Val{T: enc.uf("re.match", []string{"Ptr", "Str"}, "Bool", re.T, sv.T), Typ: boolT}
+	}
+	// application of a function value (parameter of function type): the same pure
+	// application symbol the code uses
+	{
+		var fv Val
+		found := false
+		if v, ok := c.bound[name]; ok {
+			fv, found = v, true
+		} else if v, ok := c.lookup(name); ok {
+			fv, found = v, true
+		}
+		if found && fv.Typ != nil {
+			if sig, isSig := fv.Typ.Underlying().(*types.Signature); isSig {
+				sorts := []string{"Int"}
+				ts := []string{fv.T}
+				for i, a := range e.Args {
+					av := c.eval(a)
+					if av.isConst() {
+						av = c.materialize(av, sig.Params().At(i).Type())
+					}
+					sorts = append(sorts, enc.sortOf(av.Typ))
+					ts = append(ts, av.T)
+				}
+				rt := sig.Results().At(0).Type()
+				fn := fmt.Sprintf("fapply.%s.%d", typeKey(sig), 0)
+				return Val{T: enc.uf(fn, sorts, enc.sortOf(rt), ts...), Typ: rt}
+			}
+		}
 	}
 	// spec function?
 	if sf := c.vc.findSpec(name, c.pkg); sf != nil {
